@@ -40,3 +40,29 @@ Proof.
   - apply true_obliquity_sum; try assumption. unfold eps0. lra.
   - apply Rabs_le. lra.
 Qed.
+
+(* size of the difference: |true - mean| = |deps| <= 9.2025 + 0.00089 |T| + 0.89 arc seconds
+   (main term amplitude of the extracted cosine table + proved remainder), |T| <= 20 *)
+Theorem true_minus_mean_bound j : Rabs (C08_nut_main.Tc j) <= 20 ->
+  exists e0 deps,
+    f_mean_obliquity Rops (VTuple [epo j]) (VDict []) = ang e0 /\
+    f_true_obliquity Rops (VTuple [epo j]) (VDict []) = ang (e0 + deps / 3600) /\
+    Rabs deps <= 92025 / 10000 + 89 / 100000 * Rabs (C08_nut_main.Tc j) + 89 / 100.
+Proof.
+  intros HT.
+  destruct (true_obliquity_closed j HT) as (deps & Hn & Hm & Ht & _).
+  destruct (C08_nut_bound.nutation_obliquity_clause j HT) as (deps' & Hn' & Hd' & _).
+  assert (Heq : deps' = deps).
+  { assert (E : ang (deps' / 3600) = ang (deps / 3600)) by (rewrite <- Hn'; exact Hn).
+    injection E. intros E'. lra. }
+  rewrite Heq in Hd'. clear Hn' Heq deps'. exists (eps0 + laskar (uj j) / 3600), deps. split; [exact Hm|]. split; [exact Ht|].
+  set (T := C08_nut_main.Tc j) in *.
+  pose proof (C08_nut_bound.nutation_obliquity_remainder T HT) as H1. rewrite <- Hd' in H1.
+  assert (H2 : Rabs (C08_nut_bound.main_eps T (C08_nut_main.polyO T)) <= 92025 / 10000 + 89 / 100000 * Rabs T).
+  { unfold C08_nut_bound.main_eps. set (w := C08_nut_main.polyO T).
+    pose proof (COS_bound (w * (PI / 180))) as Hc. set (c := cos _) in *.
+    pose proof (Rabs_pos T) as HT0.
+    assert (HTT : - Rabs T <= T <= Rabs T) by (unfold Rabs; destruct (Rcase_abs T); lra).
+    apply Rabs_le. split; nra. }
+  apply Rabs_le_bounds in H1. apply Rabs_le_bounds in H2. apply Rabs_le. lra.
+Qed.
